@@ -25,6 +25,8 @@ fn contents() -> Vec<Spec> {
         Spec { id: 3, group: 1, status_add: 1, obs: vec![(0, 1.0, true)] },
         Spec { id: 4, group: 0, status_add: 1, obs: vec![(1, 1.5, true)] },
         Spec { id: 5, group: 0, status_add: 1, obs: vec![(0, 9.0, true)] },
+        // a Wasted track (status counter 2): compatible, has the queried class, must be skipped by only_baked
+        Spec { id: 6, group: 0, status_add: 2, obs: vec![(0, 2.25, true)] },
     ]
 }
 
@@ -176,7 +178,7 @@ fn expected(sc: &Scenario) -> (Vec<Item>, usize, Vec<TrackDump>) {
 
 pub fn run(tier: Tier) -> Report {
     let rep = Report::new("C10", tier);
-    rep.set_rule("scenarios = store contents (4-5 tracks: mixed compatibility class, status, 0..2 observations in classes {0,1}, a pair beyond the metric cut-off) x candidate batch {one foreign, two foreign, foreign with a stored id, owned [1], owned [1,2], owned [2,4,1]} x only_baked x result streams consumed through all() / into_iter() x shard count; for each scenario every schedule of the store workers and the caller at command granularity within the preemption bound (window = the query until both result streams are drained); oracle: result multiset = reference cartesian product, error count, store unchanged, identical across schedules. states = executions (schedules), transitions = decision points.");
+    rep.set_rule("scenarios = store contents (4-6 tracks: mixed compatibility class, status Pending / Ready / Wasted, 0..2 observations in classes {0,1}, a pair beyond the metric cut-off) x candidate batch {one foreign, two foreign, foreign with a stored id, owned [1], owned [1,2], owned [2,4,1]} x only_baked x result streams consumed through all() / into_iter() x shard count; for each scenario every schedule of the store workers and the caller at command granularity within the preemption bound (window = the query until both result streams are drained); oracle: result multiset = reference cartesian product, error count, store unchanged, identical across schedules. states = executions (schedules), transitions = decision points.");
     rep.assume("macro-step granularity: branching at named schedule points (worker dequeues a command; caller finished queueing; owned query between 'commands sent' and 're-added') and whenever the running task blocks");
     let shard_counts: Vec<usize> = tier.pick(vec![1, 2], vec![1, 2, 3]);
     let bound = usize::MAX / 4; // every schedule at command granularity (the spaces are small); the wall cap is the only limit
@@ -189,7 +191,7 @@ pub fn run(tier: Tier) -> Report {
                 if tier == Tier::Quick && (only_baked && (batch == "foreign2" || batch == "owned3") || iter && only_baked && batch != "foreign-stored-id") {
                     continue;
                 }
-                let sc = Scenario { shards, batch, only_baked, ntracks: if batch == "owned3" { 5 } else { 4 }, iter };
+                let sc = Scenario { shards, batch, only_baked, ntracks: if batch == "owned3" { 5 } else if only_baked { 6 } else { 4 }, iter };
                 if rep.out_of_time() {
                     rep.cap_hit(&format!("wall budget reached before scenario {sc:?}"));
                     continue;
